@@ -1229,6 +1229,53 @@ shape! {
     };
 }
 
+// pipelines that cannot pend at all (CanPend = No, Ctx = ()): what most generated subgraphs are
+shape! {
+    fn c_flat_for_each = "flat_map>for_each", family: "flat_map";
+    outs: 1, virtual_outs: 1, max_epochs: 2, held: "other";
+    spec: u32 = |sim, _c| gen_u32(sim);
+    make: |_e, s| *s;
+    state: ();
+    build: |env, _st, _ep| { let k = env.cfg.k; push::flat_map(move |x: u32| f_inner(k, x), push::for_each(move |x: u32| env.virt(0, x as u64))) };
+    after_epoch: |_e, _s, _p| ();
+    more_work: |_s| false;
+    reference: |cfg, specs| ex1(Cmp::Seq, specs.iter().map(|ep| e64(r_flat(cfg.k, ep))).collect());
+}
+
+shape! {
+    fn c_persist_sort_for_each = "persist>sort>for_each", family: "persist";
+    outs: 1, virtual_outs: 1, max_epochs: 3, held: "other";
+    spec: u32 = |sim, _c| gen_u32(sim);
+    make: |_e, s| *s;
+    state: Vec<u32>;
+    build: |env, st, ep| push::persist_state(st, env.cfg.flags[ep], push::sort(push::for_each(move |x: u32| env.virt(0, x as u64))));
+    after_epoch: |_e, _s, _p| ();
+    more_work: |_s| false;
+    reference: |cfg, specs| {
+        let mut p = RPersist::default();
+        ex1(Cmp::Seq, specs.iter().enumerate().map(|(i, ep)| e64(r_sorted(&p.step(cfg.flags[i], ep)))).collect())
+    };
+}
+
+shape! {
+    fn c_fold_keyed_for_each = "fold_keyed>for_each", family: "keyed";
+    outs: 1, virtual_outs: 1, max_epochs: 3, held: "other";
+    spec: (u32, u32) = |sim, _c| f_kv(gen_u32(sim));
+    make: |_e, s| *s;
+    state: FxHashMap<u32, u32>;
+    build: |env, st, _ep| { let k = env.cfg.k; push::FoldKeyed::new(st, move || k, |acc: &mut u32, v: u32| f_fold(acc, v), push::for_each(move |kv: (u32, u32)| env.virt(0, enc_pair(kv.0, kv.1)))) };
+    after_epoch: |env, st, _p| if !env.cfg.mode { st.clear() };
+    more_work: |_s| false;
+    reference: |cfg, specs| {
+        let mut map = BTreeMap::new();
+        ex1(Cmp::Bag, specs.iter().map(|ep| {
+            let out = r_keyed_fold(&mut map, cfg.k, ep);
+            if !cfg.mode { map.clear(); }
+            out
+        }).collect())
+    };
+}
+
 // ------------------------------------------------------------------------------------------
 
 /// (scenario name, weight, run function)
@@ -1296,4 +1343,7 @@ pub const CATALOGUE: &[(&str, u64, RunFn)] = &[
     ("demux_var(fold_keyed,reduce)", 2, c_demux_keyed_reduce),
     ("sort>fanout", 2, c_sort_fan),
     ("fanout(fold,reduce_ref)", 2, c_fan_fold_fold),
+    ("flat_map>for_each", 1, c_flat_for_each),
+    ("persist>sort>for_each", 1, c_persist_sort_for_each),
+    ("fold_keyed>for_each", 1, c_fold_keyed_for_each),
 ];
